@@ -14,8 +14,8 @@ from __future__ import annotations
 import ast
 
 from .. import sqlmini
-from ..flow import (call_name, calls_in, cfg_node_of, feasible_reach, func_cfg, mem_store_writes, names_in,
-                    parent_map, self_attr)
+from ..flow import (call_name, calls_in, cfg_node_of, derived_names, feasible_reach, func_cfg, mem_store_writes,
+                    names_in, parent_map, self_attr)
 from ..loader import AnalysisError, walk_no_nested
 from ..report import Context
 from . import c01
@@ -128,16 +128,48 @@ def r2(ctx: Context, sites) -> None:
                 o = bool(dec) and bool(stop) and not outside
             ctx.add("R2", f"{gb.qualname}::limit-after-filters", o, gb.loc(), "" if o else "the limit is consumed by ids that are filtered out (or never stops the iteration)")
             # the ready set definition: added when waited and not waiting; removed when it starts waiting / is released
-            wtxt = ast.unparse(wfr.node)
-            o = "self._ready.add(waited_id)" in wtxt and "if waited_id not in self.waiting_for" in wtxt and f"self._ready.discard(waiter_id)" in wtxt
+            # (matched structurally: receivers by store attribute, arguments by role, not by variable name)
+            W = derived_names(wfr.node, {wfr.params[1]})
+            vloops = [n for n in walk_no_nested(wfr.node) if isinstance(n, ast.For) and ast.unparse(n.iter) == wfr.params[2]]
+            V = names_in(vloops[0].target) if vloops else set()
+
+            def store_call(fn, meth, attr, key_names=None, arg_names=None):
+                out = []
+                for c_ in calls_in(fn.node):
+                    if call_name(c_) != meth or self_attr(c_.func) != attr:
+                        continue
+                    recv = c_.func.value
+                    if key_names is not None:
+                        if not (isinstance(recv, ast.Subscript) and names_in(recv.slice) & key_names):
+                            continue
+                    elif isinstance(recv, ast.Subscript):
+                        continue
+                    if arg_names is not None and not (c_.args and names_in(c_.args[0]) & arg_names):
+                        continue
+                    out.append(c_)
+                return out
+
+            def guarded_by(fn, node, pred):
+                pm_ = parent_map(fn.node)
+                cur = pm_.get(id(node))
+                while cur is not None:
+                    if isinstance(cur, ast.If) and pred(cur.test) and any(x is node for st in cur.body for x in ast.walk(st)):
+                        return True
+                    cur = pm_.get(id(cur))
+                return False
+
+            ready_add = store_call(wfr, "add", "_ready", None, V)
+            o = bool(ready_add) and all(guarded_by(wfr, c_, lambda t: isinstance(t, ast.Compare) and isinstance(t.ops[0], ast.NotIn) and names_in(t.left) & V and self_attr(t.comparators[0]) == "waiting_for") for c_ in ready_add) and bool(store_call(wfr, "discard", "_ready", None, W))
             ctx.add("R2", f"{wfr.qualname}::ready-set-maintained-on-wait", o, wfr.loc(), "" if o else "the ready set is not updated as 'waited on and not itself waiting' when a wait is declared")
-            o = "self.waited_by[waited_id].add(waiter_id)" in wtxt and "self.waiting_for[waiter_id].add(waited_id)" in wtxt
+            o = bool(store_call(wfr, "add", "waited_by", V, W)) and bool(store_call(wfr, "add", "waiting_for", W, V))
             ctx.add("R2", f"{wfr.qualname}::records-edge-per-awaited-id", o, wfr.loc(), "" if o else "not one (waiter, waited) edge per awaited id in both directions")
-            rtxt = ast.unparse(rel.node)
-            p = rel.params[1]
-            o = f"self.waited_by.pop({p}, None)" in rtxt and f"self.waiting_for[waiter_id].discard({p})" in rtxt and f"self._ready.discard({p})" in rtxt
+            P = {rel.params[1]}
+            rloops = [n for n in walk_no_nested(rel.node) if isinstance(n, ast.For) and self_attr(n.iter) == "waited_by" and names_in(n.iter) & P]
+            X = names_in(rloops[0].target) if rloops else set()
+            o = bool(store_call(rel, "pop", "waited_by", None, P)) and bool(store_call(rel, "discard", "waiting_for", X, P)) and bool(store_call(rel, "discard", "_ready", None, P))
             ctx.add("R2", f"{rel.qualname}::removes-every-edge-into-id", o, rel.loc(), "" if o else "release does not drop waited_by[id], the id from each waiter's set and from the ready set")
-            o = "self._ready.add(waiter_id)" in rtxt and "if waiter_id in self.waited_by" in rtxt and "if not self.waiting_for[waiter_id]" in rtxt
+            freed = store_call(rel, "add", "_ready", None, X)
+            o = bool(freed) and all(guarded_by(rel, c_, lambda t: isinstance(t, ast.Compare) and isinstance(t.ops[0], ast.In) and names_in(t.left) & X and self_attr(t.comparators[0]) == "waited_by") and guarded_by(rel, c_, lambda t: isinstance(t, ast.UnaryOp) and isinstance(t.op, ast.Not) and self_attr(t.operand) == "waiting_for") for c_ in freed)
             ctx.add("R2", f"{rel.qualname}::freed-waiter-becomes-ready", o, rel.loc(), "" if o else "a waiter that no longer waits (and is itself waited on) is not added to the ready set")
             # all under the lock
             for m in (wfr, rel):
